@@ -341,6 +341,44 @@ fn main() {
         wpt.push(&format!("({}, {}, {}, {})", dim, nl(&psn), nl(&vsn), opt(r)), &format!("from_parts dim={dim} positions={ps:?} bits={vs:x?}"), k >= 1);
     }
 
+    // ---------------------------------------------------------------- sparse vector under a sequence of set() calls
+    let mut wss = CaseWriter::new(&args.out, "svset");
+    for i in 0..args.budget(300, 10000) {
+        let len = if i == 0 { 8 } else { rng.range(1, 10) as usize };
+        // mostly non-zero so that removals have entries behind them
+        let d: Vec<u32> = (0..len).map(|j| if i == 0 { 0x3f80_0000 + j as u32 } else if rng.chance(1, 4) { 0 } else { 0x3f80_0000 + rng.below(1000) as u32 }).collect();
+        let dense: Vec<f32> = d.iter().map(|b| f32::from_bits(*b)).collect();
+        let mut sv = SparseVector::from_dense(&dense);
+        let nops = if i == 0 { 3 } else { rng.range(1, 8) as usize };
+        let mut ops: Vec<(u64, u32)> = vec![];
+        let mut obs: Vec<String> = vec![];
+        let mut panicked = false;
+        for k in 0..nops {
+            let (idx, v) = if i == 0 { [(1u64, 0u32), (4, 0x8000_0000), (0, 0x4000_0000)][k] } else {
+                (if rng.chance(1, 12) { len as u64 + rng.below(2) } else { rng.below(len as u64) },
+                 match rng.below(5) { 0 | 1 => 0, 2 => 0x8000_0000, _ => f32_bits(&mut rng) })
+            };
+            ops.push((idx, v));
+            let mut sv2 = sv.clone();
+            let r = guarded(move || { let r = sv2.try_set(idx as usize, f32::from_bits(v)); (sv2, r.is_err()) });
+            match r {
+                Err(p) => { hits.push("", &format!("SparseVector::try_set panicked: dense bits {:x?}, calls so far {:?}: {p}", d, ops), json!({"bits": d, "ops": format!("{ops:?}")})); panicked = true; break; }
+                Ok((nsv, refused)) => {
+                    sv = nsv;
+                    let pos: Vec<u64> = sv.positions().iter().map(|p| *p as u64).collect();
+                    let val: Vec<u64> = sv.values().iter().map(|f| f.to_bits() as u64).collect();
+                    let back: Vec<u64> = sv.to_dense().iter().map(|f| f.to_bits() as u64).collect();
+                    let get: Vec<u64> = (0..len).map(|j| sv.get(j).to_bits() as u64).collect();
+                    obs.push(format!("({}, {}, {}, {}, {})", b(refused), nl(&pos), nl(&val), nl(&back), nl(&get)));
+                }
+            }
+        }
+        if panicked { continue; }
+        dist.hit(&format!("svset.ops.{}", nops.min(8)));
+        let dn: Vec<u64> = d.iter().map(|b| *b as u64).collect();
+        wss.push(&format!("({}, {}, {})", nl(&dn), list(ops.iter().map(|(a, v)| format!("({a}, {v})"))), list(obs)), &format!("sparse set: dense bits {:x?} then set calls (index, value bits) {:x?}", d, ops), true);
+    }
+
     // ---------------------------------------------------------------- received (possibly forged) sparse vectors
     let mut wv = CaseWriter::new(&args.out, "valid");
     let nvv = args.budget(600, 20000);
@@ -712,7 +750,7 @@ fn main() {
         &args.out,
         json!({
             "property": "C20", "seed": args.seed, "tier": args.tier,
-            "kinds": [w.summary(), wd.summary(), wl.summary(), wr.summary(), ws.summary(), wf.summary(), wp.summary(), wv.summary(), wb.summary(), wfs.summary(), wpt.summary(), wfd.summary(), fz.summary()],
+            "kinds": [w.summary(), wd.summary(), wl.summary(), wr.summary(), ws.summary(), wf.summary(), wp.summary(), wv.summary(), wb.summary(), wfs.summary(), wpt.summary(), wfd.summary(), wss.summary(), fz.summary()],
             "distribution": dist.json(),
             "hits": hits.0,
             "nontrivial_rule": "varint/delta/rle/sparse: non-empty (delta, rle: >= 2 elements) and distinct; frame: every case (a real Message through both protocol versions under a limit chosen around its serialized/compressed size); split: at least a full length prefix; fuzz_impl_only cases are not counted as non-trivial",
@@ -751,6 +789,20 @@ fn read_code(sent: &Message, codec: &LengthDelimitedCodec, frame: Vec<u8>, v2: b
     }
     wires.push(w1);
     wires.push(w2);
+    if v2 {
+        // the flags byte of the frame, not the receiver's own configuration, says how to decode it: peers with
+        // compression switched off / method None / another threshold must read the same message
+        let maxl = codec.max_frame_length();
+        let mut off = LengthDelimitedCodec::with_compression(maxl, CompressionConfig::default().with_method(CompressionMethod::None));
+        off.set_compression_enabled(false);
+        let plain = LengthDelimitedCodec::new(maxl);
+        let eager = LengthDelimitedCodec::with_compression(maxl, CompressionConfig::default().with_method(CompressionMethod::Lz4).with_min_size(0));
+        for peer in [&off, &plain, &eager] {
+            let mut c = Cursor::new(frame.clone());
+            worst = worst.max(code(rt.block_on(peer.read_frame_v2(&mut c))));
+            worst = worst.max(code(peer.decode_payload_v2(&frame[4..]).map(Some)));
+        }
+    }
     for w in wires {
         let mut c1 = Cursor::new(w.clone());
         let mut c2 = Cursor::new(w);
